@@ -105,6 +105,10 @@ SimConfigs ==
     \cup WithRc(Mk(IterLoops({0, 1, 3}, {2, 5}) \cup TimeLoops({0, 2}, {3, 8}), {Unthrottled, Det(1, 2)}, {Single}, {1}), {2, 3})
 SimSvcs == {0, 1, 2, 3, 5, 9}
 
+Wait123 == {1, 2, 3}
+Ext23 == {2, 3}
+Ext36 == {3, 6}
+Wait1to6 == {1, 2, 3, 5, 6}
 Near012 == {0, 1, 2}
 Near0123 == {0, 1, 2, 3}
 NearNone == {}
